@@ -22,7 +22,7 @@ func (m *C09Monitor) AfterPass(r *Runner, pv *PassView) error {
 	switch {
 	case isSetController(pv.P.Controller) || isPhaseController(pv.P.Controller):
 		return m.afterSetPass(r, pv)
-	case pv.P.Controller == engine.CtrlObjectDeployment:
+	case isDepController(pv.P.Controller):
 		return m.afterDeploymentPass(r, pv)
 	}
 	return nil
@@ -203,11 +203,8 @@ func (m *C09Monitor) afterDeploymentPass(r *Runner, pv *PassView) error {
 	depUID := engine.UID(pv.Owner)
 	// state of the deployment's ObjectSets before the pass
 	before := map[kubesim.Key]map[string]any{}
-	for _, k := range r.W.ListKeys(engine.PKOGroup, "ObjectSet") {
-		_ = k
-	}
 	for _, c := range pv.Calls {
-		if c.Actor != "pko" || c.Key.Kind != "ObjectSet" || !c.IsWrite() || c.DryRun {
+		if c.Actor != "pko" || c.Key.Kind != depSetKind() || !c.IsWrite() || c.DryRun {
 			continue
 		}
 		if _, seen := before[c.Key]; !seen {
@@ -217,7 +214,7 @@ func (m *C09Monitor) afterDeploymentPass(r *Runner, pv *PassView) error {
 	if paused {
 		r.Labels["c09-paused-deployment-pass"] = true
 		for _, c := range pv.Calls {
-			if c.Actor != "pko" || c.Key.Kind != "ObjectSet" || !c.IsWrite() || c.DryRun || c.Err != "" {
+			if c.Actor != "pko" || c.Key.Kind != depSetKind() || !c.IsWrite() || c.DryRun || c.Err != "" {
 				continue
 			}
 			switch {
@@ -255,7 +252,7 @@ func (m *C09Monitor) afterDeploymentPass(r *Runner, pv *PassView) error {
 	}
 	// unpaused deployment: revisions released (Paused -> Active) must be exactly those the parent had paused
 	for _, c := range pv.Calls {
-		if c.Actor != "pko" || c.Key.Kind != "ObjectSet" || c.Verb != "update" || c.DryRun || c.Err != "" || c.Pre == nil || c.Post == nil {
+		if c.Actor != "pko" || c.Key.Kind != depSetKind() || c.Verb != "update" || c.DryRun || c.Err != "" || c.Pre == nil || c.Post == nil {
 			continue
 		}
 		if lifecycleOf(c.Pre) == "Paused" && lifecycleOf(c.Post) != "Paused" && lifecycleOf(c.Post) != "Archived" {
